@@ -290,10 +290,12 @@ class Lexer:
 
             ([\w\.\:]+)   # keyword
 
-            ((?:\s+\w+|\s*=\s*|"[^"]*?"|'[^']*?'|\s*,\s*)*)  # attrname, = \
-                                               #        sign, string expression
-                                               # comma is for backwards compat
-                                               # identified in #366
+            # attrname, = sign, string expression; comma is for backwards
+            # compat identified in #366.  each run of whitespace can be
+            # taken by one alternative only (the one decided by what
+            # follows it), else a tag that is never closed takes
+            # exponential time to reject
+            ((?:\s+\w+|\s+(?=[=,])|[=,](?:\s+(?=["']))?|"[^"]*?"|'[^']*?')*)
 
             \s*     # more whitespace
 
